@@ -222,38 +222,56 @@ def replay_refuted(run, name, info, args_by_label):
         parts = solve.strip_goal(obl.goal)
         # find the failing conjunct
         model = None
+        small = []
+        for v_ in list((obl.args or {}).values()) + list((getattr(obl, "ghost", None) or {}).values()):
+            _int_terms(v_, small)
         for extra, g in parts:
-            ground, quants, instances, neg = solve.prepare(list(obl.hyps) + list(extra), g)
+            hyps_all = list(obl.hyps) + list(extra)
+            ground, quants, instances, neg = solve.prepare(hyps_all, g)
+            # 1. full query (every quantified hypothesis present) with small inputs: a model of it is genuine
+            sf = z3.Solver()
+            sf.set("timeout", 20000)
+            for h in hyps_all:
+                sf.add(h)
+            sf.add(neg)
+            for t_ in small:
+                sf.add(t_ >= -12, t_ <= 12)
+            if sf.check() == z3.sat:
+                model = sf.model()
+                rep["model_from"] = "full query, inputs bounded to [-12,12]"
+                break
+            # 2. instantiated query (candidate model only), small first
             s2 = z3.Solver()
             s2.set("timeout", 20000)
             for h in ground + instances:
                 s2.add(h)
             s2.add(neg)
-            # prefer a small model (readable, concretisable): bound the input integers first
-            small = []
-            for v_ in (obl.args or {}).values():
-                _int_terms(v_, small)
             s2.push()
             for t_ in small:
                 s2.add(t_ >= -40, t_ <= 40)
             if s2.check() == z3.sat:
                 model = s2.model()
+                rep["model_from"] = "instantiated query (candidate), inputs bounded to [-40,40]"
                 break
             s2.pop()
             if s2.check() == z3.sat:
                 model = s2.model()
+                rep["model_from"] = "instantiated query (candidate)"
                 break
         if model is not None and getattr(obl, "args", None) is not None:
             del _KEYS[:]
             _string_terms(list(obl.args.values()), _KEYS)
             rep["inputs"] = {k: concretize(model, v) for k, v in obl.args.items()}
+            gh = getattr(obl, "ghost", None) or {}
+            rep["ghost"] = {k: concretize(model, v) for k, v in gh.items()
+                            if isinstance(v, (z3.ExprRef, Arr, int, bool, str)) and not k.startswith("__")}
     except Exception as e:
         rep["concretize_error"] = f"{type(e).__name__}: {e}"
     if rep["inputs"] is not None and rep.get("target"):
         try:
             p = subprocess.run([VENV_PY, os.path.join(ROOT, "replay", "run.py")],
                                input=json.dumps({"target": rep["target"], "inputs": rep["inputs"],
-                                                 "repo": engine.REPO}),
+                                                 "ghost": rep.get("ghost"), "repo": engine.REPO}),
                                capture_output=True, text=True, timeout=120)
             rep["replayed"] = True
             try:
@@ -312,7 +330,7 @@ def main():
         print(json.dumps(rep, indent=1)[:4000])
         if rep.get("inputs") and rep.get("target"):
             p = subprocess.run([VENV_PY, os.path.join(ROOT, "replay", "run.py")],
-                               input=json.dumps({"target": rep["target"], "inputs": rep["inputs"], "repo": engine.REPO}),
+                               input=json.dumps({"target": rep["target"], "inputs": rep["inputs"], "ghost": rep.get("ghost"), "repo": engine.REPO}),
                                capture_output=True, text=True)
             print(p.stdout[-3000:], p.stderr[-2000:])
         elif rep.get("bounded_case"):
